@@ -192,6 +192,13 @@ func c14Expr(t *rapid.T) (ast.Expr, string) {
 		{"split-number", ast.Call("split", ast.A(ast.F("sx")), ast.A(x))},
 		{"join-number", ast.Call("join", ast.A(x), ast.A(&ast.Chain{Head: ast.Head{Kind: ast.HMultiList, Items: []ast.Expr{ast.F("sx"), ast.F("tx")}}}))},
 		{"sort-with-text", ast.Call("sort", ast.A(&ast.Chain{Head: ast.Head{Kind: ast.HMultiList, Items: []ast.Expr{x, ast.F("tx")}}}))},
+		// arithmetic between an integer beyond 2^53 (held by an integer kind, a
+		// decimal or a json.Number) and a small operand (held by anything, a
+		// float included), chosen so that the exact result is itself a binary64
+		// value and fits the 64-bit integer kinds in play
+		{"arith-big-mixed", ast.Bin(gen.Pick(t, "bigop", []string{"+", "-", "*"}), x, y)},
+		{"arith-big-mixed", ast.Bin(gen.Pick(t, "bigop2", []string{"+", "-", "*"}), y, x)},
+		{"arith-big-mixed", &ast.Chain{Head: ast.Head{Kind: ast.HMultiList, Items: []ast.Expr{ast.Bin("+", x, y), ast.Bin("-", x, y), ast.Bin("==", ast.Bin("+", x, y), x), ast.Bin("<", ast.Bin("-", x, y), x)}}}},
 		{"length-number", ast.Call("length", ast.A(x))},
 		{"index-number", x.With(ast.Step{Kind: ast.SIndex, Index: 0})},
 		{"slice-number", ast.Paren(x).With(ast.Step{Kind: ast.SSlice, Stop: ast.I64(1)})},
@@ -243,6 +250,13 @@ func TestC14_Carriers(t *testing.T) {
 			xv = big2("manybits-x", []string{"1073741824", "1099511627777", "2147483647", "1543209.75", "4294967296.5", "9007199254740991", "281474976710656.25", "1000000007"})
 			yv = big2("manybits-y", []string{"1.000000000931322574615478515625", "1.00000095367431640625", "3.0000000298023223876953125", "0.753906253725290298461914062500", "7.00048828125", "1.5", "1048576.0009765625", "0.0000152587890625"})
 		}
+		bigMixed := name == "arith-big-mixed"
+		if bigMixed {
+			r, _ := new(big.Rat).SetString(gen.Pick(t, "bigmixed-x", []string{"9007199254740993", "9007199254740995", "-9007199254740993", "18014398509481985", "4611686018427387905", "9223372036854775805", "-9223372036854775807", "9007199254740992", "36028797018963967", "1152921504606846977", "72057594037927937", "-4611686018427387903"}))
+			xv = jv.VRat(r)
+			q, _ := new(big.Rat).SetString(gen.Pick(t, "bigmixed-y", []string{"1", "-1", "2", "3", "-3", "0", "4", "0.5", "1.5", "255", "-2", "5"}))
+			yv = jv.VRat(q)
+		}
 		xt := jv.RatText(xv.R)
 		doc := jv.VObj([]jv.Member{{K: "x", V: xv}, {K: "sx", V: jv.VStr("id-" + xt + "-z")}, {K: "tx", V: jv.VStr(xt)}, {K: "y", V: yv}, {K: "z", V: zero}, {K: "n", V: jv.VArr(n)}, {K: "m", V: jv.VArr(n)}, {K: "nn", V: jv.VArr([]jv.Val{jv.VArr(n), num(), jv.VArr(nums())})},
 			{K: "r", V: jv.VArr(recs)}, {K: "o", V: o}, {K: "p", V: o}, {K: "s", V: jv.VStr("a,b,a,,a")}})
@@ -252,6 +266,62 @@ func TestC14_Carriers(t *testing.T) {
 		base := recarry(t, doc, false, kinds)
 		drawn := recarry(t, doc, true, kinds)
 		res, _ := model.Eval(e, doc)
+		if bigMixed {
+			// in scope only if every number computed on the way fits the kinds in
+			// play: a binary64 value when a float carries an operand, within the
+			// 64-bit range of the signed / unsigned kinds when those do (float32
+			// leaves become float64 here: the results have more than 24 bits)
+			widenFloat32(&drawn)
+			delete(kinds, "float32")
+			ok := true
+			used := map[string]bool{}
+			var ops func(e ast.Expr)
+			ops = func(e ast.Expr) {
+				switch v := e.(type) {
+				case *ast.Binary:
+					used[v.Op] = true
+					ops(v.L)
+					ops(v.R)
+				case *ast.Chain:
+					for _, it := range v.Head.Items {
+						ops(it)
+					}
+				}
+			}
+			ops(e)
+			for _, op := range []string{"+", "-", "*"} {
+				for _, pair := range [][2]*big.Rat{{xv.R, yv.R}, {yv.R, xv.R}} {
+					z := new(big.Rat)
+					switch op {
+					case "+":
+						z.Add(pair[0], pair[1])
+					case "-":
+						z.Sub(pair[0], pair[1])
+					default:
+						z.Mul(pair[0], pair[1])
+					}
+					if !used[op] {
+						continue
+					}
+					if _, exact := z.Float64(); !exact {
+						ok = false
+					}
+					if z.IsInt() && !z.Num().IsInt64() && !z.Num().IsUint64() {
+						ok = false
+					}
+					if z.IsInt() && !z.Num().IsInt64() && hasSigned(kinds) {
+						ok = false
+					}
+					if z.Sign() < 0 && hasUnsigned(kinds) {
+						ok = false
+					}
+				}
+			}
+			if !ok {
+				c.Skip("big-mixed result outside the carriers in play")
+				return
+			}
+		}
 		calls := []run.Call{{API: "search", Expr: text, Doc: &base}, {API: "search", Expr: text, Doc: &drawn}}
 		run.Watch(c, "carriers", calls...)
 		ob := run.Search(text, base.Build())
@@ -285,6 +355,23 @@ func TestC14_Carriers(t *testing.T) {
 			})
 		}
 	})
+}
+
+func widenFloat32(n *run.Node) {
+	if n.T == "float32" {
+		n.T = "float64"
+	}
+	for i := range n.A {
+		widenFloat32(&n.A[i])
+	}
+}
+
+func hasSigned(kinds map[string]bool) bool {
+	return kinds["int"] || kinds["int8"] || kinds["int16"] || kinds["int32"] || kinds["int64"]
+}
+
+func hasUnsigned(kinds map[string]bool) bool {
+	return kinds["uint"] || kinds["uint8"] || kinds["uint16"] || kinds["uint32"] || kinds["uint64"]
 }
 
 func carrierList(n run.Node) []string {
